@@ -89,6 +89,28 @@ let handle (x : Sexp.t) : string =
   let sy = sys_of_sexp (List.find (function Sexp.List (Sexp.Atom "sys" :: _) -> true | _ -> false) fs) in
   let ops = List.map parse_op (Sexp.field "ops" fs) in
   let well_formed_sys = sim_ok sy in
+  (* kernel cross-check: the model's and the specification's observations for the whole history, computed independently of
+     what the implementation did: model until it crashes / leaves the modelled part, specification while the history is in
+     the property's domain (every snapshot operation counted) *)
+  Registry.set_model_lazy (fun () ->
+      let ms = ref (Some sim0) in
+      let mtxt = List.map (fun p ->
+          match !ms with
+          | None -> "-"
+          | Some s ->
+              (match exec sy s p.o with
+               | Done (s', b) -> ms := Some s'; show_obs b
+               | Crash -> ms := None; "(panic)"
+               | Unmodelled -> ms := None; "(unmodelled)")) ops in
+      let d = ref (well_formed_sys && (match ops with { o = OInit _; _ } :: _ -> true | _ -> false)) in
+      let ns = ref 0 and st = ref sstate0 and fst_op = ref true in
+      let stxt = List.map (fun p ->
+          if not !fst_op then d := !d && op_ok sy (nat_of_int !ns) p.o;
+          fst_op := false;
+          let r = if !d then begin let (s', b) = spec_exec sy !st p.o in st := s'; show_sobs b end else "-" in
+          (match p.o with OSnapshot -> incr ns | _ -> ());
+          r) ops in
+      Printf.sprintf "(c07 %s (%s) (%s))" (if well_formed_sys then "true" else "false") (String.concat " " mtxt) (String.concat " " stxt));
   let dom = ref (well_formed_sys && (match ops with { o = OInit _; _ } :: _ -> true | _ -> false)) in
   let nsnaps = ref 0 in
   let ms = ref sim0 and ss = ref sstate0 in
